@@ -23,6 +23,8 @@ type op struct {
 	epoch     int64
 	until     int64
 	preclass  string
+	// onto: for a lock whose target already holds funds, what it held before
+	onto *big.Int
 }
 
 func (e *env) addrPool() []util.Uint160 {
@@ -173,10 +175,25 @@ func (e *env) opLock(hostile bool) *op {
 	to := e.freshLock()
 	// now and then the funds of a live lock account are locked again (a lock inside a lock), half of the time
 	// with the same expiry as the outer one (seeded change C09-5: values read before the tick's own transfers)
-	var outer *lockInfo
-	if l, ok := e.pickLock(); ok && e.locks[l] != nil && e.locks[l].remaining.Sign() > 0 && e.b.Rng.IntN(6) == 0 {
-		from, outer = l, e.locks[l]
+	outerUntil, nested := int64(0), false
+	if l, ok := e.pickLock(); ok && e.modelBalance(l).Sign() > 0 && e.b.Rng.IntN(6) == 0 {
+		// (in every mode: seeded change C01-8 loses the inner lock's funds when both are released by one tick)
+		from, outerUntil, nested = l, e.lockUntil[l], true
 		e.b.Hit("lock-inside-a-lock")
+	}
+	// now and then the target is no new address: a live lock account (of the same or of another owner) or an ordinary
+	// account that holds funds. One record cannot serve two locks, nor a lock and a plain balance: the only outcome
+	// that keeps every clause of the statement is a refusal (found through seeded change C09-8)
+	var onto *big.Int
+	if e.relock && e.b.Rng.IntN(10) == 0 {
+		cand := e.pickFunded()
+		if l, ok := e.pickLock(); ok && e.b.Rng.IntN(3) != 0 {
+			cand = l
+		}
+		if cand != from && e.modelBalance(cand).Sign() > 0 {
+			to, onto = cand, new(big.Int).Set(e.modelBalance(cand))
+			e.b.Hit("lock-onto-an-account-that-holds-funds")
+		}
 	}
 	bal := e.modelBalance(from)
 	amt := e.pickAmount(bal, hostile)
@@ -188,12 +205,12 @@ func (e *env) opLock(hostile bool) *op {
 	if until == 0 {
 		until = 1 // until = 0 is the contract's "not a lock account" sentinel; not in the judged scope
 	}
-	if outer != nil && e.b.Rng.IntN(2) == 0 {
-		until = outer.until
+	if nested && outerUntil != 0 && e.b.Rng.IntN(2) == 0 {
+		until = outerUntil
 	}
 	c := e.pickClass(8)
 	s, cn := e.classSigners(c)
-	o := &op{kind: "lock", amount: amt, from: from.BytesBE(), to: to.BytesBE(), class: c, className: cn, signers: s, until: until, preclass: preclassOf(bal, amt)}
+	o := &op{kind: "lock", amount: amt, from: from.BytesBE(), to: to.BytesBE(), class: c, className: cn, signers: s, until: until, preclass: preclassOf(bal, amt), onto: onto}
 	o.p = e.w.Prepare(s, e.bal, "lock", []byte{byte(e.lockCtr)}, from, to, amt, until)
 	return o
 }
@@ -240,6 +257,13 @@ func (e *env) opTransfer(hostile bool) *op {
 	if e.b.Rng.IntN(10) == 0 {
 		to = from
 	}
+	// a live lock account as the sender of a public transfer: it has no key, nobody can witness for it — not its
+	// parent either (seeded change C02-8: the authorisation test skipped for records with an expiry)
+	var lockParent util.Uint160
+	if l, ok := e.pickLock(); ok && e.modelBalance(l).Sign() > 0 && e.b.Rng.IntN(10) == 0 {
+		from, lockParent = l, e.lockParent[l]
+		e.b.Hit("public-transfer-out-of-a-live-lock")
+	}
 	bal := e.modelBalance(from)
 	amt := e.pickAmount(bal, hostile)
 	// signer: the owner of from (if a user), or somebody else
@@ -284,6 +308,12 @@ func (e *env) opTransfer(hostile bool) *op {
 		default:
 			other := users[e.b.Rng.IntN(len(users))]
 			signers = []world.SignerSpec{world.G(other)}
+		}
+		// half of the time the lock's parent is the one who asks
+		for _, u := range users {
+			if u.ScriptHash() == lockParent && e.b.Rng.IntN(2) == 0 {
+				signers = []world.SignerSpec{world.G(u)}
+			}
 		}
 	}
 	fromB, toB := from.BytesBE(), to.BytesBE()
